@@ -1,11 +1,20 @@
 import AC.Drv.Proto
 import AC.ChainX
+import AC.Gen.ProgramFns
 /-! driver handler for C02: `c02 <chain> <tgt> <tgts> <V> <A> <P> <O> <E> <PR> <SU>` -/
 namespace AC.Drv
 open P
 
 def showOpsAll (c : Chain) : String :=
   if c.isEmpty then "_" else ";".intercalate ((List.range c.length).map fun k => showPairs (ops c k))
+
+/-- `Chain.Ops` / `Chain.IsAscending` as TRANSLATED from chain.go, run on the same chain: validates the
+    translator and its primitives against the code -/
+def showOpsSrc (c : Chain) : String :=
+  if c.isEmpty then "_" else ";".intercalate ((List.range c.length).map fun (k : Nat) =>
+    match AC.Gen.Program.chainOps c (k : Int) with
+    | some g => showList (fun o : AC.GoPrim.GOp => s!"{o.I}:{o.J}") g
+    | none => "panic")
 
 def b01 (b : Bool) : String := if b then "1" else "0"
 
@@ -22,6 +31,9 @@ def handleC02 (f : List String) : Res :=
       let r := cmp "ascending" (b01 (isAscending c)) A r
       let r := cmp "program" mP Pr r
       let r := cmp "ops" (showOpsAll c) O r
+      let r := cmp "translated-ops" (showOpsSrc c) O r
+      let r := cmp "translated-ascending"
+        (match AC.Gen.Program.chainIsAscending c with | some b => b01 b | none => "panic") A r
       let r := cmp "evaluate" mE E r
       let r := cmp "produces" (b01 (produces c t)) PR r
       let r := cmp "superset" (b01 (superset c tl)) SU r
